@@ -66,6 +66,11 @@ pub use method_def::*;
 pub use no_local_function::*;
 pub use remove_assertions::*;
 #[cfg(feature = "verif")]
+pub(crate) use inject_value::{
+    verif_process_expression as verif_inject_process_expression,
+    verif_process_prefix as verif_inject_process_prefix,
+};
+#[cfg(feature = "verif")]
 pub(crate) use remove_assertions::verif_assert_matches;
 pub use remove_attribute::*;
 pub use remove_comments::*;
